@@ -28,6 +28,10 @@ class Fail(Exception):
         self.details = details
 
 
+class StopClause(BaseException):
+    """The same already-recorded failure bucket keeps recurring: stop this clause early (cost bound)."""
+
+
 class Inconclusive(Exception):
     """Wall-clock watchdog fired in a clause that is not about termination."""
 
@@ -113,6 +117,8 @@ class ClauseRunner(object):
         except Fail as f:
             if f.sub in self.excluded:
                 st["excluded_bucket"] += 1
+                if st["excluded_bucket"] > 40:
+                    raise StopClause()
                 return None
             self.last_fail = (case, f)
             if raising:
@@ -164,6 +170,9 @@ class ClauseRunner(object):
                 case, f = self.last_fail
                 self.failures.append({"bucket": f.sub, "case": case, "msg": f.msg, "details": f.details})
                 self.excluded.add(f.sub)
+            except StopClause:
+                self.stats["stopped_early"] = True
+                return
             except Inconclusive:
                 self.errors.append("watchdog fired in clause %s" % self.clause.name)
                 return
@@ -196,6 +205,8 @@ class ClauseRunner(object):
                 if f is not None:
                     self.failures.append({"bucket": f.sub, "case": case, "msg": f.msg, "details": f.details})
                     self.excluded.add(f.sub)
+        except StopClause:
+            self.stats["stopped_early"] = True
         except Inconclusive:
             self.errors.append("watchdog fired in exhaustive tier of %s" % self.clause.name)
         except Fail:
